@@ -223,6 +223,8 @@ def build(modname):
         ns[L['name']] = obj
     classes = {}
     for tidx, T in enumerate(WORLD['tests']):
+        if 'twin_of' in T:
+            continue          # not a method of its own: a second instance of another test (added in test_suite below)
         cname = T.get('cls') or ('C%03d' % T['layer'] if T['layer'] is not None else 'CUnit')
         entry = classes.setdefault(cname, {'layer': T['layer'], 'tests': {}})
         entry['tests']['test_%04d%s' % (tidx, T.get('msuffix', ''))] = (tidx, T)
@@ -230,7 +232,7 @@ def build(modname):
         table = entry['tests']
 
         def setUp(self, table=table):
-            tidx, T = table[self._testMethodName]
+            tidx, T = _pair(self, table)
             for j in range(len(T.get('cleanups', []))):
                 self.addCleanup(_cleanup, self, tidx, T, j)
             emit('t_setUp', tidx)
@@ -238,23 +240,32 @@ def build(modname):
             _act(self, T.get('setUp', 'ok'))
 
         def tearDown(self, table=table):
-            tidx, T = table[self._testMethodName]
+            tidx, T = _pair(self, table)
             emit('t_tearDown', tidx)
             _writes(T, 'tearDown')
             _act(self, T.get('tearDown', 'ok'))
 
         def __str__(self, table=table):
-            tidx, T = table[self._testMethodName]
+            tidx, T = _pair(self, table)
             if T.get('str_die') and _resume_layer() and sys.stdout.closed:
                 # called while the child writes its report (SubProcess.report closes stdout first)
                 _die(T['str_die'])
             if 'str' in T:
                 return T['str']
+            if 'twin_of' in T:
+                # a twin is named after its own index, so that reports can be told apart
+                return unittest.TestCase.__str__(self).replace(self._testMethodName, 'test_%04d' % tidx, 1)
             return unittest.TestCase.__str__(self)
 
-        d = {'setUp': setUp, 'tearDown': tearDown, '__module__': modname, '__str__': __str__}
+        def countTestCases(self, table=table):
+            # a composite case (e.g. table-driven) announces more than one test case
+            return _pair(self, table)[1].get('count', 1)
+
+        d = {'setUp': setUp, 'tearDown': tearDown, '__module__': modname, '__str__': __str__, 'countTestCases': countTestCases}
         for mname, (tidx, T) in table.items():
             def body(self, tidx=tidx, T=T):
+                if getattr(self, '_vw_twin', None) is not None:
+                    tidx, T = self._vw_twin
                 emit('t_body', tidx)
                 if T.get('probe'):
                     emit('probe', tidx, snapshot())
@@ -289,7 +300,29 @@ def build(modname):
         if lv:
             d['level'] = lv[0]
         ns[cname] = type(cname, (unittest.TestCase,), d)
+    twins = [(j, T) for j, T in enumerate(WORLD['tests']) if 'twin_of' in T]
+    if twins:
+        # equal-but-distinct instances (same class and method, e.g. parametrised cases): the module builds its own suite,
+        # in the order the default loader would use, followed by the twins
+        def test_suite(classes=classes, twins=twins):
+            loader = unittest.defaultTestLoader
+            suite = unittest.TestSuite()
+            for cname in sorted(classes):
+                suite.addTests(loader.loadTestsFromTestCase(ns[cname]))
+            for j, T in twins:
+                orig = WORLD['tests'][T['twin_of']]
+                cname = orig.get('cls') or ('C%03d' % orig['layer'] if orig['layer'] is not None else 'CUnit')
+                inst = ns[cname]('test_%04d%s' % (T['twin_of'], orig.get('msuffix', '')))
+                inst._vw_twin = (j, T)
+                suite.addTest(inst)
+            return suite
+        ns['test_suite'] = test_suite
     return ns
+
+
+def _pair(self, table):
+    tw = getattr(self, '_vw_twin', None)
+    return tw if tw is not None else table[self._testMethodName]
 
 
 def _cleanup(self, tidx, T, j):
